@@ -76,10 +76,11 @@ func genC11Cfg(t *rapid.T) Cfg {
 	case 4:
 		c.Dir = strp(absMarker)
 	case 5:
-		c.Dir = strp(rapid.SampledFrom([]string{"./dotted/../dotted", "50%_done/snaps", "My%20Project"}).Draw(t, "oddDir"))
+		c.Dir = strp(rapid.SampledFrom([]string{"./dotted/../dotted", "50%_done/snaps", "My%20Project", "golden files ", " lead"}).Draw(t, "oddDir"))
 	}
-	c.Filename = rapid.SampledFrom([]string{"", "", "custom", "my.file", "with%percent", "ünï", "%d", "a b", "golden/user", "nested/deeper/name"}).Draw(t, "filename")
-	c.Ext = rapid.SampledFrom([]string{"", "", ".txt", ".json", ".snap", ".%s"}).Draw(t, "ext")
+	c.Filename = rapid.SampledFrom([]string{"", "", "custom", "my.file", "with%percent", "ünï", "%d", "a b", "golden/user", "nested/deeper/name",
+		"users.snap", "report.snap.txt", " pad", "pad ", "pad"}).Draw(t, "filename") // (a Filename is used as it is given: `.snap` inside, blanks at its edges)
+	c.Ext = rapid.SampledFrom([]string{"", "", ".txt", ".json", ".snap", ".%s", ".v1 ", "_golden"}).Draw(t, "ext")
 	return c
 }
 
